@@ -3,6 +3,7 @@ import ApolloModel.Proofs.ParserType10
 import ApolloModel.Proofs.ParserValue9
 import ApolloModel.Proofs.ParserSel9
 import ApolloModel.Proofs.ParserComplete28
+import ApolloModel.Proofs.ParserExactS7
 import ApolloModel.Proofs.ParserDef19
 import ApolloModel.Proofs.ParserTermination8
 import ApolloModel.Proofs.ParserDoc5
@@ -733,6 +734,67 @@ example : (parse .document none 500 "\"d\" type T \"e\" scalar S extend enum E {
 example : (parse .document none 500 "type T implements & A & B @d { a: [Int!]! } union U = | A | B union V enum E".toList).errors = [] := by decide +kernel
 example : (parse .document none 500 "interface I implements A { a: Int } type implements { a: Int }".toList).errors = [] := by decide +kernel
 
+/-! ### exact soundness (growth 8): the recursion budget and the well-formedness facts, from an error-free run -/
+
+/-- the depth notion that is EXACT for the parser (`Parse.Exact.vdepth`: each ITEM of a list / each object-field value is
+    under `recursion_limit`, the list itself is not, so `[]` and `{}` cost nothing) against the over-charging
+    `Parse.vdepth` of `value_accept_complete`: it is never larger and at most one smaller -/
+theorem value_depth_exact_vs_charged (v : Ast.Value) :
+    Parse.Exact.vdepth v ≤ Parse.vdepth v ∧ Parse.vdepth v ≤ Parse.Exact.vdepth v + 1 := Parse.Exact.vdepth_le v
+
+/-- **`value`, acceptance iff grammar** (one run, state level): with the queue `cs ++ q0 :: rest` (`cs` not starting with
+    an ignored token, `q0` significant and not EOF), the run of `value` ended error-free right in front of `q0` exactly
+    when `cs` spells ONE well-formed value whose exact nesting depth is within the remaining recursion budget -/
+theorem value_accept_iff (n : Nat) (isConst popOnError : Bool) (s s' : PState) (cs : List Tok) (q0 : Tok) (rest : List Tok)
+    (w : TW s) (he : EofEnd s) (hnd0 : ¬ Doomed s) (ht : Toks s = cs ++ q0 :: rest)
+    (hhead : ∀ hd tl, cs = hd :: tl → isIgnoredKind hd.kind = false)
+    (hq : isIgnoredKind q0.kind = false) (hqe : q0.kind ≠ .eof)
+    (h : (value n isConst popOnError).run s = .ok () s') :
+    (¬ Doomed s' ∧ Toks s' = q0 :: rest) ↔
+      ∃ v, (sig cs).map astOfV = (Ast.tValue v).map some ∧ valueOk isConst v = true ∧
+        Parse.Exact.vdepth v ≤ s.recLimit - s.recCur :=
+  Parse.Exact.value_iff n isConst popOnError s s' cs q0 rest w he hnd0 ht hhead hq hqe h
+
+/-- **`value`, exact soundness**: an error-free run consumed one well-formed value WITHIN THE BUDGET (or stopped at EOF) -/
+theorem value_accept_sound_exact (n : Nat) (isConst popOnError : Bool) (s s' : PState) (w : TW s) (he : EofEnd s)
+    (h : (value n isConst popOnError).run s = .ok () s') (hnd : ¬ Doomed s') :
+    ∃ cs, Toks s = cs ++ Toks s' ∧ NoEof cs ∧
+      ((∃ v : Ast.Value, (sig cs).map astOfV = (Ast.tValue v).map some ∧ valueOk isConst v = true ∧
+          Parse.Exact.vdepth v ≤ s.recLimit - s.recCur) ∨ AtEof s') := by
+  obtain ⟨⟨cs, a, b, d⟩, _⟩ := Parse.Exact.value_sound n isConst popOnError s s' w he h hnd
+  refine ⟨cs, a, b, ?_⟩
+  rcases d with ⟨v, h1, h2, h3⟩ | d
+  · exact Or.inl ⟨v, h1, h2, by simpa [Parse.Exact.bud] using h3⟩
+  · exact Or.inr d
+
+/-- **`arguments` / `directives`, exact soundness**: all values well formed and within the budget -/
+theorem arguments_accept_sound_exact (n : Nat) (isConst : Bool) (s s' : PState) (t : Tok) (rest : List Tok) (w : TW s)
+    (he : EofEnd s) (ht : Toks s = t :: rest) (hk : t.kind = .lParen)
+    (h : (arguments n isConst).run s = .ok () s') (hnd : ¬ Doomed s') :
+    ∃ cs args, Toks s = cs ++ Toks s' ∧ NoEof cs ∧ EofEnd s' ∧ args ≠ [] ∧
+      (sig cs).map astOfV = (Ast.tArguments args).map some ∧
+      ∀ a ∈ args, valueOk isConst a.2 = true ∧ Parse.Exact.vdepth a.2 ≤ s.recLimit - s.recCur :=
+  Parse.Exact.arguments_sound n isConst s s' t rest w he ht hk h hnd
+
+theorem directives_accept_sound_exact (n : Nat) (isConst : Bool) (s s' : PState) (w : TW s) (he : EofEnd s)
+    (h : (directives n isConst).run s = .ok () s') (hnd : ¬ Doomed s') :
+    ∃ cs ds, Toks s = cs ++ Toks s' ∧ NoEof cs ∧ EofEnd s' ∧
+      (sig cs).map astOfV = (Ast.tDirectives ds).map some ∧
+      ∀ d ∈ ds, ∀ a ∈ d.args, valueOk isConst a.2 = true ∧ Parse.Exact.vdepth a.2 ≤ s.recLimit - s.recCur :=
+  Parse.Exact.directives_sound n isConst s s' w he h hnd
+
+/-- **`selection_set`, exact soundness**: started on `{`, an error-free run consumed `{ ss }` for a non-empty `ss` within
+    the exact budget (`1 ≤ b`, `Parse.Exact.fitSels ss (b − 1)`: spread names ≠ `on`, inline fragments non-empty, argument
+    values well formed and within the budget, brace levels) — with `selection_set_accept_complete` (also proved for the
+    exact depth: `Parse.Exact.selectionSet_complete`) this is acceptance = grammar for selection sets. -/
+theorem selection_set_accept_sound_exact (n : Nat) (s s' : PState) (t : Tok) (rest : List Tok) (w : TW s) (he : EofEnd s)
+    (ht : Toks s = t :: rest) (hk : t.kind = .lCurly) (h : (selectionSet n).run s = .ok () s') (hnd : ¬ Doomed s') :
+    ∃ (cs : List Tok) (ss : Ast.Sels), Toks s = cs ++ Toks s' ∧ NoEof cs ∧ ss ≠ Ast.Sels.nil ∧
+      (sig cs).map astOfV = (Ast.tSelSet ss).map some ∧ 1 ≤ s.recLimit - s.recCur ∧
+      Parse.Exact.fitSels ss (s.recLimit - s.recCur - 1) := by
+  obtain ⟨cs, x, a, b, _, d, ss, hne, rfl, hb, hf⟩ := (Parse.Exact.sel_all_sound n).1 s s' t rest w he ht hk h hnd
+  exact ⟨cs, ss, a, b, hne, d, hb, hf⟩
+
 end Executable
 
 /-! ## Document level: `document()` and `Parser::parse` — accepted ⊆ grammar, for whole documents
@@ -811,7 +873,7 @@ theorem document_accepted_reference_parser (rl : Nat) (src : Parse.Str) (herr : 
       Parse.sig (Parse.srcToks src) = ts ++ [e] ∧ e.kind = .eof ∧ ts.map Parse.astOfV = (Parse.docToks its).map some ∧
       ∀ items, Parse.strictItems its = some items →
         items ≠ [] ∧ Parse.docToks its = Ast.itemsToks items ∧
-        ((∀ i ∈ items, Ast.wfDefinition i.2 = true) → Ast.FollowOk items →
+        ((∀ i ∈ items, Ast.wfDefinition i.2 = true) → Ast.ItemsFollowOk items →
           ∀ f, Ast.szDefinitions (items.map (·.2)) ≤ f → Ast.pDocument f (Ast.itemsToks items) = some (items.map (·.2))) := by
   cases ho : (parse .document none rl src).outcome with
   | panic m => exact absurd ho (Parse.parse_no_panic _ _ _ _ m)
@@ -822,18 +884,18 @@ theorem document_accepted_reference_parser (rl : Nat) (src : Parse.Str) (herr : 
 
 /-- token lists of the form `itemsToks items` and the reference parser, without the parser model -/
 theorem isDocument_reference_parser (items : List Ast.Item) (f : Nat) (hne : items ≠ [])
-    (h : ∀ i ∈ items, Ast.wfDefinition i.2 = true) (hs : Ast.szDefinitions (items.map (·.2)) ≤ f) (hf : Ast.FollowOk items) :
+    (h : ∀ i ∈ items, Ast.wfDefinition i.2 = true) (hs : Ast.szDefinitions (items.map (·.2)) ≤ f) (hf : Ast.ItemsFollowOk items) :
     Ast.pDocument f (Ast.itemsToks items) = some (items.map (·.2)) :=
   Ast.items_document_roundtrip items f hne h hs hf
 
 /-- executable documents: every decomposition satisfies `FollowOk` -/
-theorem followOk_of_closed (items : List Ast.Item) (h : ∀ i ∈ items, Ast.closed i.2 = true) : Ast.FollowOk items :=
-  Ast.followOk_of_closed items h
+theorem followOk_of_closed (items : List Ast.Item) (h : ∀ i ∈ items, Ast.closed i.2 = true) : Ast.ItemsFollowOk items :=
+  Ast.itemsFollowOk_of_closed items h
 
 /-- the printer's shape (`tDocument oe (d :: r)`, shorthand only in front) is `itemsToks` of a `FollowOk` list -/
 theorem followOk_tDocument (oe : Bool) (d : Ast.Definition) (r : List Ast.Definition) :
     Ast.tDocument oe (d :: r) = Ast.itemsToks ((oe, d) :: r.map (fun d => (false, d))) ∧
-      Ast.FollowOk ((oe, d) :: r.map (fun d => (false, d))) :=
+      Ast.ItemsFollowOk ((oe, d) :: r.map (fun d => (false, d))) :=
   ⟨Ast.tDocument_items oe d r, Ast.followOk_tDocument oe d r⟩
 
 /-- number of errors, and whether the tree's text is the whole input -/
